@@ -14,8 +14,25 @@ def _is_seq(x):
 class NumArr:
     _abs_native = True
 
-    def __init__(self, data):
-        self.data = [NumArr(r) if isinstance(r, (list, tuple)) else r for r in (data.data if isinstance(data, NumArr) else list(data))]
+    def __init__(self, data, fixed=None):
+        """`fixed`: 'int' when the array was allocated with an integer dtype (explicitly or *_like an integer array):
+        numpy then casts every value stored into it (floats are truncated)"""
+        self.fixed = fixed
+        self.data = [NumArr(r, fixed) if isinstance(r, (list, tuple)) else r for r in (data.data if isinstance(data, NumArr) else list(data))]
+        if fixed:
+            for r in self.data:
+                if isinstance(r, NumArr):
+                    r.fixed = fixed
+
+    def _cast(self, v):
+        if self.fixed == "int":
+            if isinstance(v, NumArr):
+                return NumArr([self._cast(x) for x in v.data], "int")
+            if isinstance(v, (list, tuple)):
+                return [self._cast(x) for x in v]
+            if isinstance(v, float) and v == v and v not in (float("inf"), float("-inf")):
+                return int(v)
+        return v
 
     # ------------------------------------------------------------------ basics
     def __len__(self):
@@ -146,6 +163,13 @@ class NumArr:
         return self.data[self._idx(key)]
 
     def __setitem__(self, key, value):
+        value = self._cast(value)
+        if isinstance(key, int) and not isinstance(key, bool) and self.ndim == 2:
+            row = list(value) if _is_seq(value) else [value] * len(self.data[0])
+            if len(row) != len(self.data[0]):
+                raise Undecided("shape mismatch in row assignment")
+            self.data[self._idx(key)] = NumArr(row, self.fixed)
+            return
         if isinstance(key, NumArr) and key.ndim == 2 and self.ndim == 2:
             for r, kr in zip(self.data, key.data):
                 r[kr] = value
@@ -276,6 +300,34 @@ def dot(a, b):
     raise Undecided("dot of these shapes")
 
 
+def _dtype_name(dt):
+    if dt is None:
+        return None
+    name = dt if isinstance(dt, str) else getattr(dt, "__name__", str(dt))
+    return "int" if "int" in name else "float" if "float" in name else "bool" if "bool" in name else None
+
+
+def _alloc(shape, fill, fixed):
+    if isinstance(shape, int):
+        shape = (shape,)
+    shape = tuple(shape)
+    if len(shape) == 1:
+        return NumArr([fill] * shape[0], fixed)
+    if len(shape) == 2:
+        return NumArr([[fill] * shape[1] for _ in range(shape[0])], fixed)
+    raise Undecided("allocation of shape %r" % (shape,))
+
+
+def _alloc_like(a, dtype, shape, fill):
+    a = a if isinstance(a, NumArr) else NumArr(a)
+    dn = _dtype_name(dtype) or a.dtype
+    fixed = "int" if dn == "int" else None
+    out = _alloc(shape if shape is not None else a.shape, fill, fixed)
+    if fixed == "int" and isinstance(fill, float):
+        out = NumArr([[int(x) for x in r] if isinstance(r, NumArr) else int(r) for r in out.data], fixed)
+    return out
+
+
 def num_summaries():
     def arr(x, *a, **k):
         out = x.copy() if isinstance(x, NumArr) else NumArr(list(x)) if _is_seq(x) else x
@@ -312,10 +364,12 @@ def num_summaries():
     def clip(a, lo, hi):
         return NumArr([min(max(x, lo) if lo is not None else x, hi) if hi is not None else (max(x, lo) if lo is not None else x) for x in a])
     return {
-        "np.array": arr, "np.asarray": arr, "np.copy": arr, "np.searchsorted": searchsorted, "np.where": where,
+        "np.array": lambda x, *a, **k: (x if (k.get("copy") is False and isinstance(x, NumArr) and _dtype_name(k.get("dtype", a[0] if a else None)) in (None, x.dtype)) else arr(x, *a, **k)),
+        "np.asarray": lambda x, *a, **k: (x if (isinstance(x, NumArr) and _dtype_name(k.get("dtype", a[0] if a else None)) in (None, x.dtype)) else arr(x, *a, **k)),
+        "np.asanyarray": lambda x, *a, **k: (x if isinstance(x, NumArr) else arr(x, *a, **k)), "np.copy": arr, "np.searchsorted": searchsorted, "np.where": where,
         "np.minimum": pair(min), "np.maximum": pair(max), "np.clip": clip,
         "np.any": lambda a: any(bool(x) for x in a), "np.all": lambda a: all(bool(x) for x in a),
-        "np.zeros": lambda n, *a, **k: NumArr([0] * n) if isinstance(n, int) else NumArr([[0] * n[1] for _ in range(n[0])]),
+        "np.zeros": lambda n, *a, **k: _alloc(n, 0, "int" if _dtype_name(k.get("dtype", a[0] if a else None)) == "int" else None),
         "np.arange": lambda *a: NumArr(list(range(*a))), "np.isin": lambda a, b: NumArr([x in list(b) for x in a]),
         "np.diff": lambda a: NumArr([y - x for x, y in zip(list(a)[:-1], list(a)[1:])]),
         "np.cumsum": lambda a: NumArr(a).cumsum(), "np.argmin": lambda a: NumArr(a).argmin(), "np.argmax": lambda a: NumArr(a).argmax(),
@@ -323,14 +377,25 @@ def num_summaries():
         "np.logical_and": lambda a, b: NumArr(a) & b, "np.logical_or": lambda a, b: NumArr(a) | b, "np.logical_not": lambda a: ~NumArr(a),
         "np.digitize": lambda x, bins, right=False: NumArr([(bisect.bisect_left if right else bisect.bisect_right)(list(bins), v) for v in x]),
         "np.unique": lambda a: NumArr(sorted(set(a))), "np.sort": lambda a: NumArr(sorted(a)),
-        "np.take": lambda a, idx, **k: NumArr(a)[idx], "np.concatenate": lambda seq, **k: NumArr([x for s in seq for x in s]),
-        "np.append": lambda a, b: NumArr(list(a) + (list(b) if _is_seq(b) else [b])),
+        "np.take": lambda a, idx, **k: NumArr(a)[idx], "np.concatenate": lambda seq, **k: NumArr([x for s in seq for x in (s if _is_seq(s) else [s])]),
+        "np.append": lambda a, b, axis=None: NumArr((list(NumArr(a).ravel()) if _is_seq(a) else [a]) + (list(NumArr(b).ravel()) if _is_seq(b) else [b])),
+        "np.insert": lambda a, i, v, axis=None: NumArr(list(a)[:i] + (list(v) if _is_seq(v) else [v]) + list(a)[i:]),
+        "np.hstack": lambda seq: NumArr([x for s_ in seq for x in (s_ if _is_seq(s_) else [s_])]),
+        "np.union1d": lambda a, b: NumArr(sorted(set((list(NumArr(a).ravel()) if _is_seq(a) else [a]) + (list(NumArr(b).ravel()) if _is_seq(b) else [b])))),
+        "np.atleast_1d": lambda a: a if isinstance(a, NumArr) else NumArr(list(a) if _is_seq(a) else [a]),
         "np.ones": lambda n, *a, **k: NumArr([1] * n),
         "np.full": lambda n, v, *a, **k: NumArr([v] * n) if isinstance(n, int) else (NumArr([v] * n[0]) if len(n) == 1 else NumArr([[v] * n[1] for _ in range(n[0])])),
-        "np.empty": lambda n, *a, **k: NumArr([0] * n) if isinstance(n, int) else NumArr([[0] * n[1] for _ in range(n[0])]),
+        "np.empty": lambda n, *a, **k: _alloc(n, 0, "int" if _dtype_name(k.get("dtype", a[0] if a else None)) == "int" else None),
         "np.inf": float("inf"), "np.dot": dot, "np.matmul": dot,
+        "np.size": lambda a, axis=None: (a.size if axis is None else a.shape[axis]) if isinstance(a, NumArr) else (len(a) if _is_seq(a) else 1),
+        "np.shape": lambda a: a.shape if isinstance(a, NumArr) else (len(a),) if _is_seq(a) else (),
+        "np.ndim": lambda a: a.ndim if isinstance(a, NumArr) else (1 if _is_seq(a) else 0),
+        "np.empty_like": lambda a, dtype=None, shape=None, **k: _alloc_like(a, dtype, shape, 0),
+        "np.zeros_like": lambda a, dtype=None, shape=None, **k: _alloc_like(a, dtype, shape, 0),
+        "np.ones_like": lambda a, dtype=None, shape=None, **k: _alloc_like(a, dtype, shape, 1),
+        "np.full_like": lambda a, v, dtype=None, shape=None, **k: _alloc_like(a, dtype, shape, v),
         "np.reshape": lambda a, shape, order="C": (a if isinstance(a, NumArr) else NumArr(a)).reshape(shape, order=order),
-        "np.ravel": lambda a, *x, **k: (a if isinstance(a, NumArr) else NumArr(a)).flatten(),
+        "np.ravel": lambda a, *x, **k: (a if isinstance(a, NumArr) else NumArr(a if _is_seq(a) else [a])).flatten(),
         "np.column_stack": lambda t: NumArr([list(c) for c in t]).T, "np.vstack": lambda t: NumArr([list(r) for r in t]),
         "np.stack": lambda t, axis=0: NumArr([list(r) for r in t]) if axis == 0 else NumArr([list(c) for c in t]).T,
         "np.transpose": lambda a: (a if isinstance(a, NumArr) else NumArr(a)).T,
@@ -339,8 +404,7 @@ def num_summaries():
         "np.amin": lambda a: NumArr(a).min(), "np.amax": lambda a: NumArr(a).max(),
         "np.float64": float, "np.int64": int, "np.isinf": lambda a: NumArr([x in (float("inf"), float("-inf")) for x in a]) if _is_seq(a) else a in (float("inf"), float("-inf")),
         "np.isfinite": lambda a: NumArr([x not in (float("inf"), float("-inf")) and x == x for x in a]) if _is_seq(a) else (a not in (float("inf"), float("-inf")) and a == a),
-        "np.zeros_like": lambda a, **k: NumArr([0 for _ in a]), "np.ones_like": lambda a, **k: NumArr([1 for _ in a]),
-        "np.full_like": lambda a, v, **k: NumArr([v for _ in a]), "np.count_nonzero": lambda a: sum(1 for x in a if x),
+        "np.count_nonzero": lambda a: sum(1 for x in a if x),
         "np.add": lambda a, b: (a if isinstance(a, NumArr) else NumArr(a)) + b,
         "np.multiply": lambda a, b: (a if isinstance(a, NumArr) else NumArr(a)) * b,
         "max": lambda *a: max(a) if len(a) > 1 else max(a[0]), "min": lambda *a: min(a) if len(a) > 1 else min(a[0]),
